@@ -53,6 +53,11 @@ def _axes():
         Axis("lam0", [("0", 0.0), ("1", 1.0), ("10", 10.0), ("near", "near")]),
         Axis("kap0", [("1", 1.0), ("0.25", 0.25), ("100", 100.0)]),
         Axis("tr", [("2", 2.0), ("1e-2", 1e-2)]),
+        # updatePrecond=False: the caller manages the preconditioner (the harness assembles it at the start point before
+        # the call).  The objective always still carries the PREVIOUS load step's parameters on entry (added after a
+        # seeded change that stored the requested parameters only on the warm-start / preconditioner-update paths went
+        # undetected: the problem solved was the previous step's)
+        Axis("up", [("T", True), ("F", False)]),
     ]
 
 
@@ -255,7 +260,10 @@ def run_group(g, tier, seed, rec):
             obj = objs[clab["kap0"]]
             obj.lam = jnp.array(lam0)
             obj.kappa = jnp.array(kap0)
-            obj.p = pold if cval["ws"] else pnew
+            obj.p = pold
+            if not cval["up"]:
+                with contextlib.redirect_stdout(io.StringIO()):
+                    obj.update_precond(jnp.array(x0))
             alS = AlSolver.get_settings(penalty_scaling=cval["pscale"], target_constraint_decrease_factor=cval["tdec"],
                                         use_second_order_update=cval["so"],
                                         num_initial_low_order_iterations=cval["nlow"], tol=cval["tol"])
@@ -269,7 +277,7 @@ def run_group(g, tier, seed, rec):
             try:
                 with contextlib.redirect_stdout(buf), horizon(HORIZON_S):
                     xr = AlSolver.augmented_lagrange_solve(obj, jnp.array(x0), pnew, alS, subS, callback=cb,
-                                                           useWarmStart=cval["ws"])
+                                                           useWarmStart=cval["ws"], updatePrecond=cval["up"])
             except HorizonExceeded:
                 rec.noverdict(cid, "horizon")
                 continue
@@ -411,9 +419,12 @@ def _run_bound(g, tier, seed, rec, d, xstar, configs, f, P):
                                                                         "" if css == 1.0 else "-css%g" % css, pl, il, sl, cfgid)
                     if not rec.want(cid):
                         continue
-                    obj.p = pold if cval["ws"] else pnew
+                    obj.p = pold
                     obj.lam = jnp.zeros(len(idx))
                     obj.reset_kappa()
+                    if not cval["up"]:
+                        with contextlib.redirect_stdout(io.StringIO()):
+                            obj.update_precond(obj.scaling * jnp.array(x0))
                     alS = AlSolver.get_settings(penalty_scaling=cval["pscale"], target_constraint_decrease_factor=cval["tdec"],
                                                 use_second_order_update=cval["so"],
                                                 num_initial_low_order_iterations=cval["nlow"], tol=cval["tol"])
@@ -427,7 +438,8 @@ def _run_bound(g, tier, seed, rec, d, xstar, configs, f, P):
                     try:
                         with contextlib.redirect_stdout(buf), horizon(HORIZON_S):
                             xr = BoundConstrainedSolver.bound_constrained_solve(obj, jnp.array(x0), pnew, alS, subS,
-                                                                                callback=cb, useWarmStart=cval["ws"])
+                                                                                callback=cb, useWarmStart=cval["ws"],
+                                                                                updatePrecond=cval["up"])
                     except HorizonExceeded:
                         rec.noverdict(cid, "horizon")
                         continue
